@@ -508,6 +508,26 @@ def wl_cuckoo(ctx, rng, case):
             compare(ctx, s, t, acc, MEMBER_Q, keys + ["never-added"], f"{cls.__name__} loaded via {lname}, after it was exported again")
             ctx.check(bytes(t) == data, f"{cls.__name__}: the second re-export after loading via {lname} differs")
             ctx.count(f"channel.{lname}")
+            # the reload keeps working like the original: the same further history (same random decisions) on this product and on a second
+            # load of the same export gives the same results and the same table - and neither touches the other, the original, or the
+            # products of the loaders still to come (each of those is compared with the original after this one was changed)
+            s2 = resupply(cls.frombytes(data, **({"error_rate": err} if by_error_rate else {}), **kw))
+            more = [(rng.random() < 0.7, rng.choice(keys)) for _ in range(rng.randint(2, 6))]
+            seed2 = rng.getrandbits(32)
+            outs = []
+            for o in (t, s2):
+                stdrandom.seed(seed2)
+                res = []
+                for is_add, kk in more:
+                    try:
+                        res.append(o.add(kk) if is_add else o.remove(kk))
+                    except CuckooFilterFullError:
+                        res.append("full")
+                outs.append(res)
+            ctx.check(outs[0] == outs[1] and table(t) == table(s2) and t.elements_added == s2.elements_added,
+                      f"{cls.__name__}: the reload (via {lname}) diverges from a second load of the same export when the history continues", results=outs)
+            ctx.check(bytes(s) == data, f"{cls.__name__}: changing a loaded copy (via {lname}) changed the original")
+            ctx.count("loaded_copies_changed_before_the_next_load")
         case.nontrivial = True
     finally:
         sc.cleanup()
